@@ -44,43 +44,62 @@ pub(crate) enum TaggedItemInfo<'a> {
 }
 
 // does the written text end inside a // comment?
-// Only the last line has to be looked at, because the writer never emits a raw line break inside a string.
+// The text is the content of a block as the writer produced it: it starts outside of any string or comment.
 fn ends_in_line_comment(text: &str) -> bool {
-    let last_line = text.rsplit('\n').next().unwrap_or("");
-    let mut chars = last_line.chars().peekable();
-    let mut in_string = false;
-    let mut escaped = false;
-    while let Some(c) = chars.next() {
-        if in_string {
-            if escaped {
-                escaped = false;
-            } else if c == '\\' {
-                escaped = true;
-            } else if c == '"' {
-                in_string = false;
-            }
-        } else if c == '"' {
-            in_string = true;
-        } else if c == '/' && chars.peek() == Some(&'/') {
-            return true;
-        } else if c == '/' && chars.peek() == Some(&'*') {
-            // a block comment: continue behind its end, if it ends on this line
-            chars.next();
-            let mut prev = ' ';
-            let mut closed = false;
-            for d in chars.by_ref() {
-                if prev == '*' && d == '/' {
-                    closed = true;
-                    break;
-                }
-                prev = d;
-            }
-            if !closed {
-                return false;
-            }
-        }
+    #[derive(PartialEq)]
+    enum State {
+        Outside,
+        InString,
+        InStringEscaped,
+        LineComment,
+        BlockComment,
+        BlockCommentStar,
     }
-    false
+    let mut state = State::Outside;
+    let mut chars = text.chars().peekable();
+    while let Some(c) = chars.next() {
+        state = match state {
+            State::Outside => {
+                if c == '"' {
+                    State::InString
+                } else if c == '/' && chars.peek() == Some(&'/') {
+                    chars.next();
+                    State::LineComment
+                } else if c == '/' && chars.peek() == Some(&'*') {
+                    chars.next();
+                    State::BlockComment
+                } else {
+                    State::Outside
+                }
+            }
+            State::InString => match c {
+                '\\' => State::InStringEscaped,
+                '"' => State::Outside,
+                _ => State::InString,
+            },
+            State::InStringEscaped => State::InString,
+            State::LineComment => {
+                if c == '\n' {
+                    State::Outside
+                } else {
+                    State::LineComment
+                }
+            }
+            State::BlockComment => {
+                if c == '*' {
+                    State::BlockCommentStar
+                } else {
+                    State::BlockComment
+                }
+            }
+            State::BlockCommentStar => match c {
+                '/' => State::Outside,
+                '*' => State::BlockCommentStar,
+                _ => State::BlockComment,
+            },
+        };
+    }
+    state == State::LineComment
 }
 
 impl Writer {
